@@ -2115,6 +2115,7 @@ class Exec(Engine):
         self.cur_fn_node = node
         self.inline_depth = 0
         self.at_call_fired = set()
+        self.unknown_count = 0
         ex = Extractor(display=c.display)
         fn = ex.clean(node)
         if c.classmethod_of:
